@@ -113,8 +113,11 @@ struct Blobs {
     x: Array2<f64>,
 }
 
-fn gen_blobs(rng: &mut Rng, d: usize, k: usize, per: usize) -> Blobs {
-    let kind = *rng.pick(&["separated", "separated", "overlapping", "anisotropic", "anisotropic", "duplicates", "outlier", "scaled"]);
+/// `offsets`: the distances from the origin the kind "offset" places the whole data set at (records far
+/// from the origin relative to their spread: the two-pass covariance keeps its accuracy there, a one-pass
+/// formula `E[xx'] - mu mu'` loses it)
+fn gen_blobs(rng: &mut Rng, d: usize, k: usize, per: usize, offsets: &[f64]) -> Blobs {
+    let kind = *rng.pick(&["separated", "separated", "overlapping", "anisotropic", "anisotropic", "duplicates", "outlier", "scaled", "offset", "offset"]);
     let scale = if kind == "scaled" { *rng.pick(&[1e-3, 1.0 / 64.0, 16.0]) } else { 1.0 };
     let sep = match kind {
         "overlapping" => 1.0 + 1.5 * rng.unit(),
@@ -149,6 +152,14 @@ fn gen_blobs(rng: &mut Rng, d: usize, k: usize, per: usize) -> Blobs {
         let far = *rng.pick(&[60.0, 300.0, 5000.0]);
         let r: Vec<f64> = (0..d).map(|_| q(far * (rng.unit() + 0.5))).collect();
         rows.push(r);
+    }
+    if kind == "offset" {
+        let off: Vec<f64> = (0..d).map(|_| *rng.pick(offsets) * if rng.coin() { 1.0 } else { -1.0 }).collect();
+        for r in rows.iter_mut() {
+            for (v, o) in r.iter_mut().zip(off.iter()) {
+                *v += *o;
+            }
+        }
     }
     rng.shuffle(&mut rows);
     let n = rows.len();
@@ -207,14 +218,32 @@ fn lambda_min(a: &Array2<f64>) -> f64 {
 fn maxabs(a: &Array2<f64>) -> f64 {
     a.iter().fold(0.0f64, |m, x| m.max(x.abs()))
 }
-/// the scale the M-step outputs are presented in: the largest |x_ij| (1 for all-zero data)
-fn data_scale(x: &Array2<f64>) -> f64 {
-    let s = maxabs(x);
-    if s > 0.0 {
-        s
-    } else {
-        1.0
-    }
+/// presentation scales of an M-step (mirrors `scaleOf` of the driver): `lo` the column minima, `range`
+/// the largest column range, `mx = max |x_ij|`.  Means are printed as `(mu - lo) / s1`, covariance
+/// diagonals as `cov_aa / s2`, `s1 = max(range, mx / rr)`, `s2 = max(range^2, mx * range / rr)`: the
+/// rounding error of the two-pass formulas is ~ n eps mx for a mean and ~ eps mx range for a covariance
+/// entry, so records far from the origin are compared as tightly as their conditioning allows
+struct Scale {
+    lo: Vec<f64>,
+    s1: f64,
+    s2: f64,
+}
+fn scale_of<F: Sc>(x: &Array2<f64>) -> Scale {
+    let rr = if is32::<F>() { 1.0 } else { 64.0 };
+    let d = x.ncols();
+    let lo: Vec<f64> = (0..d).map(|c| x.column(c).iter().cloned().fold(f64::INFINITY, f64::min)).collect();
+    let hi: Vec<f64> = (0..d).map(|c| x.column(c).iter().cloned().fold(f64::NEG_INFINITY, f64::max)).collect();
+    let range = (0..d).map(|c| hi[c] - lo[c]).fold(0.0f64, f64::max);
+    let mx = maxabs(x);
+    let s1 = range.max(mx / rr);
+    let s2 = (range * range).max(mx * range / rr);
+    Scale { lo, s1: if s1 > 0.0 { s1 } else { 1.0 }, s2: if s2 > 0.0 { s2 } else { 1.0 } }
+}
+/// `w=.. mu=.. covdiag=.. covcorr=..` in the scale-free presentation
+fn show_params(sc: &Scale, w: &Array1<f64>, mu: &Array2<f64>, cov: &Array3<f64>) -> String {
+    let mus = Array2::from_shape_fn(mu.dim(), |(j, c)| (mu[[j, c]] - sc.lo[c]) / sc.s1);
+    let (dg, cc) = diag_corr(cov, sc.s2);
+    format!("w={} mu={} covdiag={} covcorr={}", v1t(w), m2t(&mus), dg, cc)
 }
 
 /// oracle tolerances: the f64 values are those of round 1, the f32 values the same checks at single precision
@@ -238,13 +267,15 @@ fn tol_of<F: Sc>() -> Tol {
 
 /// the "valid mixture" half of the statement, on explicit parameters
 #[allow(clippy::too_many_arguments)]
-fn oracle_params(ctx: &mut Ctx, tl: &Tol, class: &str, strict_pd: bool, x: &Array2<f64>, reg: f64, w: &Array1<f64>, mu: &Array2<f64>, cov: &Array3<f64>, prec: Option<&Array3<f64>>, pchol: Option<&Array3<f64>>) {
+/// returns the number of components reported under `cov_pd_singular` with a degenerate support (the open finding)
+fn oracle_params(ctx: &mut Ctx, tl: &Tol, class: &str, strict_pd: bool, x: &Array2<f64>, reg: f64, w: &Array1<f64>, mu: &Array2<f64>, cov: &Array3<f64>, prec: Option<&Array3<f64>>, pchol: Option<&Array3<f64>>, resp: Option<&Array2<f64>>) -> usize {
+    let mut masked = 0usize;
     let (n, d) = x.dim();
     let k = w.len();
     let fin = all_finite(w.iter()) && all_finite(mu.iter()) && all_finite(cov.iter()) && prec.map_or(true, |p| all_finite(p.iter())) && pchol.map_or(true, |p| all_finite(p.iter()));
     ctx.require(fin, "params_finite", class, || format!("non-finite parameter in a returned model: w={:?} mu={:?}", w, mu));
     if !fin {
-        return;
+        return 0;
     }
     ctx.require(mu.dim() == (k, d) && cov.dim() == (k, d, d), "shapes", class, || format!("means {:?} covariances {:?} for k={} d={}", mu.dim(), cov.dim(), k, d));
     ctx.require(w.iter().all(|v| *v > 0.0), "weights_pos", class, || format!("weights {:?}", w));
@@ -282,7 +313,28 @@ fn oracle_params(ctx: &mut Ctx, tl: &Tol, class: &str, strict_pd: bool, x: &Arra
         // (With a positive reg the requirement is `cov_pd` above: an eigenvalue ~reg is positive definite even where reg is
         // below the resolution of the scalar type, e.g. reg 1e-6 in f32.)
         if strict_pd && (reg == 0.0 || lm < 0.5 * reg - tl.pd_abs * scale) && lm <= 64.0 * tl.eps * scale && lm >= -tl.pd_abs * scale {
-            ctx.fail("cov_pd_singular", class, format!("fit returned a covariance that is singular to working precision: component {} smallest eigenvalue {:e}, largest entry {:e}, reg {:e}; data {:?}", j, lm, scale, reg, if x.len() <= 36 { x.rows().into_iter().map(|r| r.to_vec()).collect::<Vec<_>>() } else { vec![] }));
+            // the support of the component: the distinct records it is responsible for (membership >= 1e-6).
+            // With at most d of them the exact covariance is singular (the listed finding); on a larger support
+            // the exact covariance is positive definite, and the stored matrix is judged as it stands: singular
+            // only if its smallest eigenvalue (Jacobi in f64) is within 64 eps(f64) of zero - an f32 covariance
+            // of condition number 1e5 is positive definite, not singular.
+            let support = resp.map(|r| {
+                let mut rows: Vec<Vec<u64>> = (0..n).filter(|i| r[[*i, j]] >= 1e-6).map(|i| x.row(i).iter().map(|v| v.to_bits()).collect()).collect();
+                rows.sort();
+                rows.dedup();
+                rows.len()
+            });
+            let sup = match support {
+                Some(m) if m <= d => "le_d",
+                Some(_) => "gt_d",
+                None => "unknown",
+            };
+            if sup == "le_d" && reg == 0.0 {
+                masked += 1;
+            }
+            if !(sup == "gt_d" && lm > 64.0 * f64::EPSILON * scale) {
+            ctx.fail("cov_pd_singular", &format!("{}:support={}", class, sup), format!("fit returned a covariance that is singular to working precision: component {} smallest eigenvalue {:e}, largest entry {:e}, reg {:e}, supported on {:?} distinct records (d = {}); data {:?}", j, lm, scale, reg, support, d, if x.len() <= 36 { x.rows().into_iter().map(|r| r.to_vec()).collect::<Vec<_>>() } else { vec![] }));
+            }
         }
         if let Some(p) = prec {
             let pj = p.index_axis(Axis(0), j).to_owned();
@@ -305,17 +357,9 @@ fn oracle_params(ctx: &mut Ctx, tl: &Tol, class: &str, strict_pd: bool, x: &Arra
             ctx.require(pas <= tl.asym * maxabs(&pj).max(1e-300), "precision_symmetric", class, || format!("precision {} asymmetric by {:e}", j, pas));
         }
         if let Some(pc) = pchol {
-            // precisions_chol (what prediction uses) against the covariance directly: C = L^-T is upper
-            // triangular with a positive diagonal and C' Sigma C = I
+            // precisions_chol (what prediction uses) against the covariance directly: C' Sigma C = I.  (Which
+            // factor is stored - triangular or not - is not part of the statement; a wrong triangle fails the product.)
             let c = pc.index_axis(Axis(0), j).to_owned();
-            let mut tri = true;
-            for a in 0..d {
-                for b in 0..a {
-                    tri &= c[[a, b]] == 0.0;
-                }
-                tri &= c[[a, a]] > 0.0;
-            }
-            ctx.require(tri, "prec_chol_contract", class, || format!("precisions_chol {} is not upper triangular with a positive diagonal: {:?}", j, c));
             let prod = c.t().dot(&cj).dot(&c);
             let mut res = 0.0f64;
             for a in 0..d {
@@ -327,6 +371,7 @@ fn oracle_params(ctx: &mut Ctx, tl: &Tol, class: &str, strict_pd: bool, x: &Arra
             ctx.require(res <= tl.inv * cond.max(1.0), "prec_chol_contract", class, || format!("|C' Sigma C - I| = {:e} for component {} (cond ~ {:e})", res, j, cond));
         }
     }
+    masked
 }
 
 /// the "valid probabilities" half, on the output of predict_proba / predict
@@ -388,15 +433,20 @@ fn op_estep<F: Sc>(em: &mut Em, g: &Gmm<F>, x: &Array2<F>) {
     });
 }
 
-/// masses for which the statement does not say whether the component counts as "emptied": between one
-/// machine epsilon and 1e-10 (f64) / 1e-4 (f32) either outcome of the guard is acceptable (the code's
-/// constant is 10 eps); such lines carry `margin=0` and are not compared, the oracle still runs
+/// masses for which the statement does not say whether the component counts as "emptied": a component
+/// with NO mass is emptied, one with mass >= 1e-10 (f64) / 1e-4 (f32) is not; in between either outcome of
+/// the guard is acceptable (the code's constant is 10 eps); such lines carry `margin=0` and are not
+/// compared, the oracle still runs
 fn grey_hi<F: Sc>() -> f64 {
     if is32::<F>() {
         1e-4
     } else {
         1e-10
     }
+}
+/// column masses in the scalar type, summed sequentially (as `sum_axis` does)
+fn col_mass<F: Sc>(resp: &Array2<F>) -> Vec<f64> {
+    (0..resp.ncols()).map(|j| resp.column(j).iter().fold(F::zero(), |a, v| a + *v).w()).collect()
 }
 
 fn op_mstep<F: Sc>(em: &mut Em, tag: &str, x: &Array2<F>, resp: &Array2<F>, reg: F) {
@@ -405,13 +455,10 @@ fn op_mstep<F: Sc>(em: &mut Em, tag: &str, x: &Array2<F>, resp: &Array2<F>, reg:
     let class = format!("mstep{}:{}", F::TAG, tag);
     let tl = tol_of::<F>();
     let rows_ok = rw.rows().into_iter().all(|r| (r.iter().sum::<f64>() - 1.0).abs() <= tl.sum && r.iter().all(|v| *v >= 0.0));
-    // column masses in the scalar type, sequentially (as sum_axis does)
-    let grey = (0..resp.ncols()).any(|j| {
-        let m = resp.column(j).iter().fold(F::zero(), |a, v| a + *v);
-        m >= F::n(F::EPS) && m < F::n(grey_hi::<F>())
-    });
+    let mass = col_mass(resp);
+    let grey = mass.iter().any(|m| *m > 0.0 && *m < grey_hi::<F>());
     let mg = if grey { "~0000000000000000".to_string() } else { th(1.0) };
-    let s = data_scale(&xw);
+    let sc = scale_of::<F>(&xw);
     em.case_valid(op, &class, |ctx| {
         match hk::estimate_gaussian_parameters_g(x, resp, reg) {
             Ok((nk, mu, cov)) => {
@@ -420,22 +467,77 @@ fn op_mstep<F: Sc>(em: &mut Em, tag: &str, x: &Array2<F>, resp: &Array2<F>, reg:
                 let (mu, cov) = (w2(&mu), w3(&cov));
                 if rows_ok {
                     // any M-step on responsibilities is a valid mixture (precisions need the Cholesky step)
-                    oracle_params(ctx, &tl, &class, false, &xw, reg.w(), &w, &mu, &cov, None, None);
+                    oracle_params(ctx, &tl, &class, false, &xw, reg.w(), &w, &mu, &cov, None, None, None);
                 }
-                let emptied = (0..rw.ncols()).any(|j| rw.column(j).iter().sum::<f64>() < F::EPS);
+                let emptied = mass.iter().any(|m| *m == 0.0);
                 ctx.require(!emptied, "empty_cluster_is_error", &class, || "a component without mass did not raise EmptyCluster".to_string());
-                let (dg, cc) = diag_corr(&cov, s * s);
-                format!("ok nk={} w={} mu={} covdiag={} covcorr={} margin={}", v1t(&nkw), v1t(&w), m2t(&(mu / s)), dg, cc, mg)
+                format!("ok nk={} {} margin={}", v1t(&nkw), show_params(&sc, &w, &mu, &cov), mg)
             }
             Err(GmmError::EmptyCluster(_)) => {
                 // the guard must only fire on a (numerically) empty column
-                let emptied = (0..rw.ncols()).any(|j| rw.column(j).iter().sum::<f64>() < grey_hi::<F>());
+                let emptied = mass.iter().any(|m| *m < grey_hi::<F>());
                 ctx.require(emptied, "empty_cluster_error", &class, || "EmptyCluster reported although every column of the responsibilities has mass".to_string());
                 format!("err EmptyCluster margin={}", mg)
             }
             Err(e) => format!("err other:{} margin={}", hexstr(&e.to_string()), mg),
         }
     });
+}
+
+/// `compute_precisions_cholesky_full` against the Lean model of the two linfa-linalg routines
+fn op_pchol<F: Sc>(em: &mut Em, tag: &str, cov: &Array3<F>) {
+    let op = format!("pchol{} cov={}", F::TAG, m3(&w3(cov)));
+    em.count(&format!("pchol{}:{}", F::TAG, tag));
+    em.case_valid(op, "pchol", |_ctx| match hk::compute_precisions_cholesky_full_g(cov) {
+        Ok(pc) => {
+            let pcw = w3(&pc);
+            format!("ok pc={} margin=~0000000000000000", list3(pcw.outer_iter().map(|m| m.rows().into_iter().map(|r| r.to_vec()).collect::<Vec<_>>()), |x| th(x)))
+        }
+        Err(e) => format!("err {} margin=~0000000000000000", err_kind(&e)),
+    });
+}
+
+/// the methods `e_step` then `m_step` on a whole model state, against the Lean `emStepFull`
+fn op_emfull<F: Sc>(em: &mut Em, tag: &str, g: &Gmm<F>, x: &Array2<F>, reg: F) {
+    let xw = w2(x);
+    let op = format!("emfull{} reg={} {} x={}", F::TAG, hex64(reg.w()), params_str(g), m2(&xw));
+    let class = format!("emfull{}:{}", F::TAG, tag);
+    em.count(&class);
+    let tl = tol_of::<F>();
+    let sc = scale_of::<F>(&xw);
+    let mut outcome = String::new();
+    em.case_valid(op, &class, |ctx| {
+        let (lb, lr) = match hk::e_step(g, x) {
+            Ok(v) => v,
+            Err(e) => return format!("err {} margin=~0000000000000000", err_kind(&e)),
+        };
+        let resp = lr.mapv(|v| v.exp());
+        let mass = col_mass(&resp);
+        let mut g2 = g.clone();
+        match hk::m_step(&mut g2, reg, x, &lr) {
+            Ok(()) => {
+                outcome = "ok".to_string();
+                // an emptied component is reported as an error, never kept as a model
+                ctx.require(!mass.iter().any(|m| *m == 0.0), "empty_cluster_is_error", &class, || format!("m_step returned Ok although a component has no mass (column masses {:?})", mass));
+                let (w, mu, cov, pc) = (w1(g2.weights()), w2(g2.means()), w3(g2.covariances()), w3(hk::precisions_chol_g(&g2)));
+                let prec = w3(&hk::compute_precisions_full_g(hk::precisions_chol_g(&g2)));
+                if all_finite(w2(&resp).iter()) {
+                    oracle_params(ctx, &tl, &class, false, &xw, reg.w(), &w, &mu, &cov, Some(&prec), Some(&pc), None);
+                }
+                format!("ok lb={} {} margin=~0000000000000000", th(lb.w()), show_params(&sc, &w, &mu, &cov))
+            }
+            Err(e) => {
+                outcome = format!("err:{}", err_kind(&e));
+                if let GmmError::EmptyCluster(_) = e {
+                    ctx.require(mass.iter().any(|m| *m < grey_hi::<F>()), "empty_cluster_error", &class, || format!("EmptyCluster reported although every component has mass {:?}", mass));
+                }
+                format!("err {} margin=~0000000000000000", err_kind(&e))
+            }
+        }
+    });
+    if !outcome.is_empty() {
+        em.count(&format!("{}:{}", class, outcome));
+    }
 }
 
 fn op_prec(em: &mut Em, pc: &Array3<f64>) {
@@ -579,10 +681,12 @@ struct Chain<F: Sc> {
     /// a run that did not converge but beat every earlier run, after an earlier run had converged:
     /// the configuration in which bookkeeping carried over from an earlier run would show
     unconverged_after_converged: bool,
+    /// the states in which some run ended converged
+    converged_ends: Vec<usize>,
 }
 
 fn build_chain<F: Sc, D: Data<Elem = F>, T>(vp: &GmmValidParams<F, Xoshiro256Plus>, ds: &DatasetBase<ArrayBase<D, Ix2>, T>, cfg: &FitCfg) -> Chain<F> {
-    let mut ch = Chain { new_err: None, lbs: vec![], step_err: None, states: vec![], log_resps: vec![], expected: Err("NotConverged".to_string()), unconverged_after_converged: false };
+    let mut ch = Chain { new_err: None, lbs: vec![], step_err: None, states: vec![], log_resps: vec![], expected: Err("NotConverged".to_string()), unconverged_after_converged: false, converged_ends: vec![] };
     let mut g = match hk::new_model(vp, ds) {
         Ok(g) => g,
         Err(e) => {
@@ -633,6 +737,9 @@ fn build_chain<F: Sc, D: Data<Elem = F>, T>(vp: &GmmValidParams<F, Xoshiro256Plu
             }
         }
         some_run_converged |= conv.is_some();
+        if conv.is_some() {
+            ch.converged_ends.push(ch.states.len() - 1);
+        }
     }
     ch.expected = match (&ch.step_err, best_iter, best) {
         (Some(e), _, _) => Err(e.clone()),
@@ -651,8 +758,9 @@ type FitRes<F> = std::thread::Result<Result<Gmm<F>, GmmError>>;
 
 fn fit_and_chain<F: Sc, D: Data<Elem = F>, T>(cfg: &FitCfg, ds: &DatasetBase<ArrayBase<D, Ix2>, T>) -> (FitRes<F>, Option<Chain<F>>) {
     let res = catch_unwind(AssertUnwindSafe(|| build_params::<F>(cfg, cfg.pform).fit(ds)));
-    // the chain always uses the plain way of building the parameters
-    let chain = catch_unwind(AssertUnwindSafe(|| build_params::<F>(cfg, 0).check().ok().map(|vp| build_chain(&vp, ds, cfg)))).ok().flatten();
+    // the chain always uses the plain way of building the parameters (for `params(k)` alone: that very
+    // parameter set, cfg then holds what its getters report)
+    let chain = catch_unwind(AssertUnwindSafe(|| build_params::<F>(cfg, if cfg.pform == 3 { 3 } else { 0 }).check().ok().map(|vp| build_chain(&vp, ds, cfg)))).ok().flatten();
     (res, chain)
 }
 
@@ -712,11 +820,16 @@ fn far_queries<F: Sc>(rng: &mut Rng, g: &Gmm<F>, x: &Array2<f64>, nq_near: usize
     (Array2::from_shape_fn((n, d), |(i, j)| F::n(rows[i][j])), far)
 }
 
-fn one_instance<F: Sc>(em: &mut Em, rng: &mut Rng, big: bool) {
+/// returns (fits reported under the open finding `cov_pd_singular` with a degenerate support, rank-deficient data sets)
+fn one_instance<F: Sc>(em: &mut Em, rng: &mut Rng, big: bool) -> (usize, usize) {
+    let out = one_instance_inner::<F>(em, rng, big);
+    out
+}
+fn one_instance_inner<F: Sc>(em: &mut Em, rng: &mut Rng, big: bool) -> (usize, usize) {
     let d = 1 + rng.below(6);
     let k = 1 + rng.below(if big { 6 } else { 4 });
     let per = if big { 10 + rng.below(30) } else { 6 + rng.below(12) };
-    let mut b = gen_blobs(rng, d, k, per);
+    let mut b = gen_blobs(rng, d, k, per, if is32::<F>() { &[1e2, 1e3] } else { &[1e5, 1e6, 1e7, 1e8] });
     let rank_def = rng.chance(1, 25);
     if rank_def {
         // at most d points for one component and no regularisation: the exact covariance is singular
@@ -740,8 +853,11 @@ fn one_instance<F: Sc>(em: &mut Em, rng: &mut Rng, big: bool) {
         dform: rng.below(5),
     };
     if !rank_def && rng.chance(1, 10) {
-        // the documented defaults, through params(k) alone
-        cfg = FitCfg { k: cfg.k, init: GmmInitMethod::KMeans, reg: 1e-6, tol: 1e-3, runs: 1, iters: 100, seed: 42, pform: 3, dform: cfg.dform };
+        // `params(k)` alone: the defaults, as the getters of the checked parameter set report them (which
+        // values the defaults have is not part of the statement; that `fit` uses the reported ones is)
+        if let Ok(vp) = Gmm::<F>::params(cfg.k).check() {
+            cfg = FitCfg { k: cfg.k, init: *vp.init_method(), reg: vp.reg_covariance().w(), tol: vp.tolerance().w(), runs: vp.n_runs(), iters: vp.max_n_iterations(), seed: 42, pform: 3, dform: cfg.dform };
+        }
     }
     if !rank_def && cfg.pform != 3 && rng.chance(1, 5) {
         // "plateau" stream: the random initialiser starts EM on a plateau (all components alike), so with a loose
@@ -790,6 +906,7 @@ fn one_instance<F: Sc>(em: &mut Em, rng: &mut Rng, big: bool) {
     let class = format!("fit{}:init={}:data={}:reg={}", t, init_s, b.kind, if cfg.reg == 0.0 { "0" } else { "pos" });
     let tl = tol_of::<F>();
     let mut outcome = String::new();
+    let mut masked = 0usize;
     em.case_valid(op, &class, |ctx| match &res {
         Err(_) => panic!("fit panicked"),
         Ok(Err(e)) => {
@@ -798,10 +915,18 @@ fn one_instance<F: Sc>(em: &mut Em, rng: &mut Rng, big: bool) {
         }
         Ok(Ok(g)) => {
             outcome = format!("fit_ok{}", t);
-            oracle_params(ctx, &tl, &class, true, &xw, cfg.reg, &w1(g.weights()), &w2(g.means()), &w3(g.covariances()), Some(&w3(g.precisions())), Some(&w3(hk::precisions_chol_g(g))));
+            let resp = catch_unwind(AssertUnwindSafe(|| w2(&g.predict_proba(&x)))).ok();
+            masked = oracle_params(ctx, &tl, &class, true, &xw, cfg.reg, &w1(g.weights()), &w2(g.means()), &w3(g.covariances()), Some(&w3(g.precisions())), Some(&w3(hk::precisions_chol_g(g))), resp.as_ref());
             "ok".to_string()
         }
     });
+    if masked > 0 {
+        em.count(&format!("masked{}:cov_pd_singular", t));
+    }
+    let tally = (if masked > 0 { 1 } else { 0 }, if rank_def { 1 } else { 0 });
+    if cfg.reg == 0.0 {
+        em.count(&format!("fits{}:reg=0", t));
+    }
     if !outcome.is_empty() {
         em.count(&outcome);
         if outcome.starts_with("fit_ok") {
@@ -856,6 +981,8 @@ fn one_instance<F: Sc>(em: &mut Em, rng: &mut Rng, big: bool) {
             }
             (Ok(_), exp) => {
                 match exp {
+                    // (a `fit` that falls back to an earlier run that DID converge returns a converged model: permitted)
+                    Err(e) if e == "NotConverged" && idx.map_or(false, |i| ch.converged_ends.contains(&i)) => {}
                     Err(e) if e == "NotConverged" => ctx.fail("nonconvergence_is_error", &class, format!("no accepted run converged (lower bounds {:?}, tolerance {:e}, {} runs of {} iterations) but fit returned Ok (chain state {:?})", ch.lbs.iter().map(|v| v.w()).collect::<Vec<_>>(), cfg.tol, cfg.runs, cfg.iters, idx)),
                     Err(e) => ctx.fail("step_error_is_error", &class, format!("an EM step of the chain fails with {} but fit returned Ok (chain state {:?})", e, idx)),
                     Ok(i) => ctx.require(idx == Some(*i), "fit_returns_accepted_state", &class, || format!("fit returned chain state {:?}, the accepted converged run ends in state {}", idx, i)),
@@ -867,12 +994,29 @@ fn one_instance<F: Sc>(em: &mut Em, rng: &mut Rng, big: bool) {
             }
         });
     }
+    // ---- the whole of fit after `new`: the Lean `fitFull` from the initial state must reach what fit returned
+    if let (Some(ch), Ok(fr)) = (&chain, &res) {
+        if ch.new_err.is_none() && ch.lbs.len() <= 30 && x.nrows() <= 90 && ch.lbs.iter().all(|v| v.w().is_finite()) {
+            let sc = scale_of::<F>(&xw);
+            let op = format!("fitfull{} tol={} iters={} runs={} reg={} {} x={}", t, hex64(cfg.tol), cfg.iters, cfg.runs, hex64(cfg.reg), params_str(&ch.states[0]), m2(&xw));
+            em.count(&format!("op:fitfull{}:{}", t, if fr.is_ok() { "ok" } else { "err" }));
+            em.case_valid(op, &class, |_ctx| match fr {
+                Ok(gg) => format!("ok idx={} {} margin=~0000000000000000", accepted.map_or("nomatch".to_string(), |i| i.to_string()), show_params(&sc, &w1(gg.weights()), &w2(gg.means()), &w3(gg.covariances()))),
+                Err(e) => format!("err {} margin=~0000000000000000", err_kind(e)),
+            });
+        }
+        // one iteration through the methods e_step / m_step from a state of the chain
+        if !ch.states.is_empty() {
+            let j = rng.below(ch.states.len());
+            op_emfull(em, "chain", &ch.states[j], &x, F::n(cfg.reg));
+        }
+    }
     let g = match res {
         Ok(Ok(g)) => g,
-        _ => return,
+        _ => return tally,
     };
     if !(all_finite(w1(g.weights()).iter()) && all_finite(w2(g.means()).iter()) && all_finite(w3(hk::precisions_chol_g(&g)).iter())) {
-        return;
+        return tally;
     }
     // ---- the returned parameters are the M-step of the accepted step's responsibilities, with the configured reg
     if let (Some(ch), Some(i)) = (&chain, accepted) {
@@ -880,21 +1024,17 @@ fn one_instance<F: Sc>(em: &mut Em, rng: &mut Rng, big: bool) {
             let resp = ch.log_resps[i - 1].mapv(|v| v.exp());
             let rw = w2(&resp);
             if all_finite(rw.iter()) {
-                let s = data_scale(&xw);
+                let sc = scale_of::<F>(&xw);
                 let op = format!("mstepfit{} reg={} x={} r={}", t, hex64(cfg.reg), m2(&xw), m2(&rw));
-                em.case_valid(op, &class, |_ctx| {
-                    let (dg, cc) = diag_corr(&w3(g.covariances()), s * s);
-                    format!("ok w={} mu={} covdiag={} covcorr={}", v1t(&w1(g.weights())), m2t(&(w2(g.means()) / s)), dg, cc)
-                });
-                // ... and one whole EM iteration (e_step then m_step) from the state before
+                em.case_valid(op, &class, |_ctx| format!("ok {}", show_params(&sc, &w1(g.weights()), &w2(g.means()), &w3(g.covariances()))));
+                // ... and one whole EM iteration (e_step then m_step) from the state before; `lb` = the lower
+                // bound `fit` saw for that step (`e_step`'s `log_prob_norm.mean()`)
                 let op = format!("emstep{} reg={} {} x={}", t, hex64(cfg.reg), params_str(&ch.states[i - 1]), m2(&xw));
-                em.case_valid(op, &class, |_ctx| {
-                    let (dg, cc) = diag_corr(&w3(g.covariances()), s * s);
-                    format!("ok w={} mu={} covdiag={} covcorr={} margin=~0000000000000000", v1t(&w1(g.weights())), m2t(&(w2(g.means()) / s)), dg, cc)
-                });
+                em.case_valid(op, &class, |_ctx| format!("ok lb={} {} margin=~0000000000000000", th(ch.lbs[i - 1].w()), show_params(&sc, &w1(g.weights()), &w2(g.means()), &w3(g.covariances()))));
             }
         }
     }
+    op_pchol(em, "fitted", g.covariances());
     // E-step on (a prefix of) the training data, M-step on the responsibilities it yields
     let m = x.nrows().min(if big { 40 } else { 16 });
     let xs = x.slice(ndarray::s![..m, ..]).to_owned();
@@ -910,6 +1050,7 @@ fn one_instance<F: Sc>(em: &mut Em, rng: &mut Rng, big: bool) {
     let (qs, far) = far_queries(rng, &g, &xw, 6);
     let form = rng.below(6);
     proba_lines(em, &g, &qs, &far, form);
+    tally
 }
 
 /// near queries in one request, every far query in its own (a far query between two nearly
@@ -1032,15 +1173,176 @@ fn proba_synthetic<F: Sc>(em: &mut Em, rng: &mut Rng) {
     proba_lines(em, &g, &qs, &far, form);
 }
 
+
+/// hand-made states for the methods e_step / m_step: diagonal mixtures over lattice records, incl. a
+/// component that no record supports (its responsibilities underflow to exactly 0: `m_step` must report
+/// EmptyCluster) and a component left with a single record (covariance = reg * I)
+fn emfull_synthetic<F: Sc>(em: &mut Em, rng: &mut Rng) {
+    let d = 1 + rng.below(3);
+    let k = 2 + rng.below(3);
+    let n = 4 * k + rng.below(10);
+    let mode = rng.below(3);
+    let tag = ["alive", "dead", "lonely"][mode];
+    let mu = Array2::from_shape_fn((k, d), |(j, _)| (10 * j as i64 + rng.range(-3, 3)) as f64);
+    // records around the component means; mode 1: none near the last component; mode 2: exactly one
+    let live = if mode == 0 { k } else { k - 1 };
+    let mut x = Array2::from_shape_fn((n, d), |(i, c)| mu[[i % live, c]] + rng.range(-4, 4) as f64 / 2.0);
+    if mode == 2 {
+        for c in 0..d {
+            x[[0, c]] = mu[[k - 1, c]] + 0.5;
+        }
+    }
+    let mut w = Array1::from_shape_fn(k, |_| 1.0 + rng.below(4) as f64);
+    let s = w.sum();
+    w.mapv_inplace(|v| v / s);
+    let mut pc = Array3::zeros((k, d, d));
+    let mut cov = Array3::zeros((k, d, d));
+    for j in 0..k {
+        for a in 0..d {
+            // the unsupported component is tight (sigma 1/8 .. 1/2): 10 units away is >= 20 sigma
+            let e = if mode == 1 && j == k - 1 { 1 + rng.range(0, 2) } else { rng.range(-1, 1) };
+            pc[[j, a, a]] = 2f64.powi(e as i32);
+            cov[[j, a, a]] = 2f64.powi(-2 * e as i32);
+        }
+    }
+    if mode == 1 {
+        // far enough for exp(.) to underflow to exactly 0: 1e3 units at sigma <= 1/2
+        for c in 0..d {
+            mu.clone()[[k - 1, c]] += 0.0;
+        }
+    }
+    let mut mu = mu;
+    if mode == 1 {
+        for c in 0..d {
+            mu[[k - 1, c]] += 1000.0;
+        }
+    }
+    let pcf: Array3<F> = pc.mapv(F::n);
+    let prec = hk::compute_precisions_full_g(&pcf);
+    let g = hk::from_parts_g(w.mapv(F::n), mu.mapv(F::n), cov.mapv(F::n), prec, pcf);
+    let reg = *rng.pick(&[1e-6, 0.25, 0.25, 1.0]);
+    op_emfull(em, tag, &g, &x.mapv(F::n), F::n(reg));
+}
+
+/// hand-made matrices for `compute_precisions_cholesky_full`: B B' + c I over small integers (positive
+/// definite), B B' with fewer columns than rows (singular: the pivot is zero up to rounding, too close to
+/// call, or exactly zero), and a matrix with a negative diagonal entry (must be an error)
+fn pchol_synthetic<F: Sc>(em: &mut Em, rng: &mut Rng) {
+    let d = 1 + rng.below(5);
+    let k = 1 + rng.below(3);
+    let mode = rng.below(4);
+    let tag = ["spd", "spd", "singular", "indefinite"][mode];
+    let mut cov = Array3::<f64>::zeros((k, d, d));
+    for j in 0..k {
+        let cols = if mode == 2 && j == k - 1 { d.saturating_sub(1).max(1) } else { d + 1 };
+        let b = Array2::from_shape_fn((d, cols), |_| rng.range(-4, 4) as f64);
+        let mut a = b.dot(&b.t());
+        let c = if mode == 2 && j == k - 1 { 0.0 } else { *rng.pick(&[0.25, 1.0, 3.0]) };
+        for i in 0..d {
+            a[[i, i]] += c;
+        }
+        if mode == 3 && j == k - 1 {
+            let i = rng.below(d);
+            a[[i, i]] = -1.0 - rng.below(3) as f64;
+        }
+        cov.index_axis_mut(Axis(0), j).assign(&a);
+    }
+    op_pchol(em, tag, &cov.mapv(F::n));
+}
+
+/// records and queries of extreme magnitude (oracle only): the statement promises a valid model or an error
+/// for every data set and finite probabilities for every finite query.  `#fitx`: records scaled by
+/// 1e-160 .. 1e160 (f32 1e-30 .. 1e19), and more components than records; `#probax`: queries so far away
+/// that the squared distance overflows the scalar type.
+fn extreme_instance<F: Sc>(em: &mut Em, rng: &mut Rng) {
+    let d = 1 + rng.below(3);
+    let k = 1 + rng.below(3);
+    let b = gen_blobs(rng, d, k, 8, &[1e3]);
+    let scales: &[f64] = if is32::<F>() { &[1e-30, 1e-15, 1e15, 1e19] } else { &[1e-160, 1e-80, 1e80, 1e150, 1e160] };
+    let sc = *rng.pick(scales);
+    let more_than_records = rng.chance(1, 5);
+    let x: Array2<F> = if more_than_records { b.x.slice(ndarray::s![..2, ..]).mapv(F::n) } else { b.x.mapv(|v| F::n(v * sc)) };
+    let kk = if more_than_records { 3 + rng.below(2) } else { k };
+    let init = if rng.coin() { GmmInitMethod::KMeans } else { GmmInitMethod::Random };
+    let reg = *rng.pick(&[0.0, 1e-6, 1.0]);
+    let seed = rng.next() % 1000;
+    let t = F::TAG;
+    let class = format!("fitx{}:{}", t, if more_than_records { "k>n".to_string() } else { format!("scale={:e}", sc) });
+    let op = format!("#fitx{} n={} d={} k={} init={:?} reg={:e} seed={} class={}", t, x.nrows(), d, kk, init, reg, seed, class);
+    let xw = w2(&x);
+    let tl = tol_of::<F>();
+    let res = catch_unwind(AssertUnwindSafe(|| Gmm::<F>::params_with_rng(kk, Xoshiro256Plus::seed_from_u64(seed)).init_method(init).reg_covariance(F::n(reg)).fit(&DatasetBase::from(x.clone()))));
+    // the sum of squared distances k-means++ forms is bounded by n d (2 max|x|)^2: where that bound passes a
+    // quarter of the largest finite value of the scalar type the sum may overflow
+    let mxx = maxabs(&w2(&x));
+    let fmax = if is32::<F>() { f32::MAX as f64 } else { f64::MAX };
+    let squares_overflow = (x.len() as f64) * 4.0 * mxx * mxx > fmax / 4.0 || !(mxx * mxx).is_finite();
+    let mut outcome = String::new();
+    em.case(op, |ctx| match &res {
+        Err(_) => {
+            // a panic is neither a model nor a reported error; where the SQUARES of the records overflow the
+            // scalar type (k-means++ then panics in `WeightedIndex::new`) the request is outside the
+            // statement's quantifier ("data sets on which fitting succeeds"): counted, not judged
+            outcome = "panic".to_string();
+            if !squares_overflow {
+                ctx.fail("no_panic", &class, "fit panicked".to_string());
+            }
+            "panic".to_string()
+        }
+        Ok(Err(e)) => {
+            outcome = format!("err:{}", err_kind(e));
+            format!("err {}", err_kind(e))
+        }
+        Ok(Ok(g)) => {
+            outcome = "ok".to_string();
+            let (w, mu, cov) = (w1(g.weights()), w2(g.means()), w3(g.covariances()));
+            let fin = all_finite(w.iter()) && all_finite(mu.iter()) && all_finite(cov.iter()) && all_finite(w3(g.precisions()).iter());
+            ctx.require(fin, "params_finite", &class, || format!("non-finite parameter in a returned model: w={:?} mu={:?} cov={:?}", w, mu, cov));
+            if fin {
+                ctx.require(w.iter().all(|v| *v > 0.0) && (w.sum() - 1.0).abs() <= tl.sum, "weights_sum_one", &class, || format!("weights {:?}", w));
+            }
+            "ok".to_string()
+        }
+    });
+    em.count(&format!("{}:{}", class, outcome));
+    // queries whose squared distance overflows
+    if let Ok(Ok(g)) = &res {
+        if all_finite(w2(g.means()).iter()) && all_finite(w3(hk::precisions_chol_g(g)).iter()) {
+            let big = if is32::<F>() { 1e30 } else { 1e200 };
+            let q = Array2::from_shape_fn((1, d), |(_, c)| F::n(if c == 0 { big } else { 0.0 }));
+            let class = format!("query{}=far:overflow", t);
+            let op = format!("#probax{} d={} k={} q={:e}", t, d, kk, big);
+            em.case(op, |ctx| {
+                let p = w2(&g.predict_proba(&q));
+                oracle_proba(ctx, &tl, &|_| class.clone(), &w2(&q), &p, None);
+                "ok".to_string()
+            });
+        }
+    }
+}
+
 pub fn run(em: &mut Em, rng: &mut Rng) {
-    let (fits, msteps, synth) = if em.thorough() { (4000, 5000, 2000) } else { (420, 800, 300) };
+    let (fits, msteps, synth) = if em.thorough() { (4000, 5000, 2000) } else { (800, 800, 300) };
     let deep = em.thorough();
+    let (mut masked, mut rank_def) = (0usize, 0usize);
     for i in 0..fits {
-        one_instance::<f64>(em, rng, deep && i % 4 == 0);
+        let (m, r) = one_instance::<f64>(em, rng, deep && i % 4 == 0);
+        masked += m;
+        rank_def += r;
     }
-    for i in 0..fits / 4 {
-        one_instance::<f32>(em, rng, deep && i % 4 == 0);
+    for i in 0..fits / 2 {
+        let (m, r) = one_instance::<f32>(em, rng, deep && i % 4 == 0);
+        masked += m;
+        rank_def += r;
     }
+    // ceiling on the open-finding mask: the listed finding (singular covariance on a degenerate support,
+    // reg = 0) is reached by a small share of the rank-deficient data sets (unchanged tree: 1-3 of ~30 per
+    // quick run); a run in which it absorbs more than 6 + half their number is a regression hiding behind it
+    let cap = 6 + rank_def / 2;
+    em.case(format!("#ceiling masked_cov_pd_singular={} rank_deficient={} cap={}", masked, rank_def, cap), |ctx| {
+        ctx.require(masked <= cap, "mask_ceiling", "cov_pd_singular", || format!("{} fits were reported under the open finding C10-singular-covariance-accepted; the ceiling for this run is {} (6 + half of the {} rank-deficient data sets)", masked, cap, rank_def));
+        "ok".to_string()
+    });
     for _ in 0..msteps {
         mstep_synthetic::<f64>(em, rng);
     }
@@ -1052,5 +1354,17 @@ pub fn run(em: &mut Em, rng: &mut Rng) {
     }
     for _ in 0..synth / 3 {
         proba_synthetic::<f32>(em, rng);
+    }
+    for _ in 0..synth {
+        emfull_synthetic::<f64>(em, rng);
+        pchol_synthetic::<f64>(em, rng);
+    }
+    for _ in 0..synth / 3 {
+        emfull_synthetic::<f32>(em, rng);
+        pchol_synthetic::<f32>(em, rng);
+    }
+    for _ in 0..synth / 3 {
+        extreme_instance::<f64>(em, rng);
+        extreme_instance::<f32>(em, rng);
     }
 }
